@@ -294,10 +294,15 @@ func (b *chunkedBody) Read(p []byte) (int, error) {
 	if b.err != nil {
 		return 0, b.err // a cut connection stays cut
 	}
-	if f := b.w.Yield(b.ctx, "body.Read", fmt.Sprint(b.pos), FBodyCut, FBodyErr, FBodyTrunc, FDisconnect, FCrash); f != nil {
+	if b.ctx.Err() != nil {
+		return 0, b.ctx.Err() // the request is over: nobody reads this body any more
+	}
+	if f := b.w.Yield(Cancellable(b.ctx), "body.Read", fmt.Sprint(b.pos), FBodyCut, FBodyErr, FBodyTrunc, FDisconnect, FCrash); f != nil {
 		switch f.Kind {
 		case FShutdown:
 			return 0, io.ErrClosedPipe
+		case FCancelled:
+			return 0, b.ctx.Err()
 		case FBodyCut:
 			// deliver a prefix of what remains, then an unexpected EOF
 			rem := len(b.data) - b.pos
